@@ -40,7 +40,7 @@ pub struct Stats {
 
 // rule -> properties
 const P_DUP: &[&str] = &["C01", "C12", "C06", "C18", "C08", "C10"];
-const P_LOSS: &[&str] = &["C01", "C12"];
+const P_LOSS: &[&str] = &["C01", "C12", "C11"];
 const P_IDX: &[&str] = &["C02", "C12", "C06"];
 const P_VALUE: &[&str] = &["C02", "C01", "C16", "C10", "C19", "C04"];
 const P_BEYOND: &[&str] = &["C01", "C05", "C02", "C03"];
